@@ -70,6 +70,18 @@ CHECKS = {
         technique=SYMEX + "; " + XH,
         ref="4 C09",
     ),
+    "C06": dict(
+        text="Bounded: (re) z3 regex theory on the parser's own patterns (captured at run time from re.compile, parsed by re._parser, translated construct by construct): for lines <= 40 chars every documented arrow line (6 arrow forms x bracketed / bare / dotted references) and declaration line (3 forms, optional alias) is in the language the parser matches, the named groups of any whole-line decomposition capture exactly the drawn names, and declaration lines are never read as arrows. (unify) SYMEX on the real PumlParser().parse: 2-3 components, all pairs / sampled triples of declaration forms, identifier and dotted names; symbolic per ordered pair: arrow drawn, each end by alias or by name; parsed components and relation equal what was drawn (z3 query 'exists drawing: mismatch'). Tag slicing cases incl. missing / reversed tags -> PumlParsingError.",
+        note="Trusted: z3 sequence/regex theory, the regex translator (validated on every witness and on the repository's .puml fixtures against the real re), the `open` stub of the unify instances (models re-parsed from real files). That the backtracking engine's first match consumes the whole documented line is an argument about _sre outside the solver, exercised by the unify instances and witness replays. Outside: spaces inside names, notes/packages/colours, cross-line matches of \\s+.",
+        technique=Z3RE + "; " + SYMEX,
+        ref="4 C06",
+    ),
+    "C07": dict(
+        text="Bounded: for every arrow relation over 2-3 components (seeded sample over 4) in universes with a bystander module, a sub-module of a component and prefix-sibling names, both modes, and every import relation over the 4-6 modules: the real DiagramRule passes exactly when the conformance formula holds and its message holds exactly the C03 records of every violated generated rule (two z3 queries per instance over the decision-tree summary); with_base_module(p) equals writing every component as p.name (one relational query, messages included); the generated rule list for every arrow relation over 2-4 components equals the conformance specification (symbolic arrow bits); MultipleRuleApplier over 1-6 appliers with symbolic pass/fail aggregates all failing messages in order.",
+        note="Trusted: SymDiGraph stub (validated), z3, reference formulas of C01/C03. Diagram files are concrete per instance (scratch directory). <= 4 components (property: 6) end-to-end; 6 for the aggregation step.",
+        technique=SYMEX,
+        ref="4 C07",
+    ),
 }
 
 NOT_YET = {}
